@@ -5,4 +5,4 @@ Require Import ExtrOcamlBasic.
 Extraction Language OCaml.
 Extraction "../ocaml/c14/model.ml" phys_of_offset offset_of_phys tail_offset_of_phys
   enc_hdr dec_hdr u24_get u24_set tc_type tc_cv tc_set_type tc_set_cv calc_checksum
-  parse_table table_range get_table get_entries inject recalc mkHdr mkEntry.
+  parse_table table_range get_table get_entries inject recalc write_table mkHdr mkEntry.
